@@ -69,4 +69,418 @@ theorem ts_vzscore_exact (sqrt : Rat → Rat) (sh : Shape) (xs : List (Option Ra
 
 theorem closures_present : "ts_vzscore" ∈ Gen.closures := by simp [Gen.closures]
 
+/-! ## the cached-extremum closures of cmp.rs (`rolling_apply_idx`, rescans through `self.uget`) -/
+
+theorem uget_eq (xs : List (Option Rat)) (i : Nat) : Gen.uget xs i = C03.get xs i := rfl
+theorem optLt_eq (a b : Option Nat) : Gen.optLt a b = ltON a b := by
+  cases a <;> cases b <;> rfl
+
+/-- `match a.sort_cmp(&b) { Less | Equal => X, _ => Y }` is `if a ≤ b (nulls last) then X else Y` -/
+theorem sortCmp_le {α : Type} (a b : Option Rat) (X Y : α) :
+    Gen.ordCases (Gen.sortCmp a b) X X Y = if leNL a b then X else Y := by
+  cases a with
+  | none => cases b <;> simp [Gen.sortCmp, leNL, Gen.ordCases]
+  | some a =>
+    cases b with
+    | none => simp [Gen.sortCmp, leNL, Gen.ordCases]
+    | some b =>
+      simp only [Gen.sortCmp, Gen.cmpRat, leNL]
+      by_cases h1 : a < b
+      · simp [h1, le_of_lt h1, Gen.ordCases]
+      · by_cases h2 : a = b
+        · simp [h2, Gen.ordCases]
+        · have : ¬ a ≤ b := fun h => h1 (lt_of_le_of_ne h h2)
+          simp [h1, h2, this, Gen.ordCases]
+
+theorem sortCmpRev_ge {α : Type} (a b : Option Rat) (X Y : α) :
+    Gen.ordCases (Gen.sortCmpRev a b) X X Y = if geNL a b then X else Y := by
+  cases a with
+  | none => cases b <;> simp [Gen.sortCmpRev, geNL, Gen.ordCases]
+  | some a =>
+    cases b with
+    | none => simp [Gen.sortCmpRev, geNL, Gen.ordCases]
+    | some b =>
+      simp only [Gen.sortCmpRev, Gen.cmpRat, geNL]
+      by_cases h1 : a < b
+      · have : ¬ b ≤ a := not_le.mpr h1
+        simp [h1, this, Gen.ordCases, Ordering.swap]
+      · by_cases h2 : a = b
+        · simp [h2, Gen.ordCases, Ordering.swap]
+        · have : b ≤ a := not_lt.mp h1
+          simp [h1, h2, this, Gen.ordCases, Ordering.swap]
+
+theorem upd_fun (le : Option Rat → Option Rat → Bool) (xs : List (Option Rat)) :
+    (fun (x : ExtSt) i =>
+      ((if le (C03.get xs i) x.1 = true then (C03.get xs i, some i) else (x.1, x.2)).1,
+       (if le (C03.get xs i) x.1 = true then (C03.get xs i, some i) else (x.1, x.2)).2))
+      = upd le (C03.get xs) := by
+  funext x i
+  unfold upd updV
+  split_ifs <;> rfl
+
+theorem agree_optOut (sqrt : Rat → Rat) (o : Option Rat) : Agree sqrt o (optOut o) := by
+  cases o <;> simp [optOut, Agree]
+
+theorem agree_mask_val (sqrt : Rat → Rat) (n mp : Nat) (start : Option Nat) (m : ExtSt) :
+    Agree sqrt (if decide (n ≥ mp) = true then m.1 else none) (if n ≥ mp then Proj.val.out m start else Out.null) := by
+  by_cases h : n ≥ mp
+  · simp only [h, decide_true, if_true, Proj.out]; exact agree_optOut sqrt _
+  · simp only [h, decide_false, if_false, Bool.false_eq_true]; rfl
+
+theorem agree_mask_arg (sqrt : Rat → Rat) (n mp : Nat) (start : Option Nat) (m : ExtSt) :
+    Agree sqrt
+      (if decide (n ≥ mp) = true then
+        ((m.1.bind fun _ => m.2).map fun k => (((k - start.getD 0 + 1 : Nat)) : Rat)) else none)
+      (if n ≥ mp then Proj.arg.out m start else Out.null) := by
+  by_cases h : n ≥ mp
+  · simp only [h, decide_true, if_true, Proj.out]
+    obtain ⟨a, b⟩ := m
+    cases a <;> cases b <;> simp [offsetOut, Agree]
+  · simp only [h, decide_false, if_false, Bool.false_eq_true]; rfl
+
+/-- generated step functions of the index-driven closures, run over `(start?, end, value)` calls -/
+def genRunIdx {σ : Type} (step : σ → Option Nat → Nat → Option Rat → σ × Option Rat) (s : σ)
+    (cs : List (Option Nat × Nat × Option Rat)) : List (Option Rat) :=
+  runSt (fun s c => step s c.1 c.2.1 c.2.2) s cs
+
+theorem runSt_sim {σ τ γ β δ : Type} (f : σ → γ → σ × β) (g : τ → γ → τ × δ) (R : σ → τ → Prop) (A : β → δ → Prop)
+    (h : ∀ s t c, R s t → R (f s c).1 (g t c).1 ∧ A (f s c).2 (g t c).2) :
+    ∀ (cs : List γ) (s : σ) (t : τ), R s t → List.Forall₂ A (runSt f s cs) (runSt g t cs) := by
+  intro cs
+  induction cs with
+  | nil => intro s t _; exact List.Forall₂.nil
+  | cons c cs ih =>
+    intro s t hr
+    obtain ⟨h1, h2⟩ := h s t c hr
+    exact List.Forall₂.cons h2 (ih _ _ h1)
+
+
+/-! ### `ts_vmin` -/
+def R_ts_vmin (g : Gen.ts_vmin.St) (m : CmpSt) : Prop := g.min = m.ext ∧ g.min_idx = m.idx ∧ g.n = m.n
+
+/-- one call of the regenerated closure simulates one call of the model closure -/
+theorem ts_vmin_step (sqrt : Rat → Rat) (xs : List (Option Rat)) (len w mp : Nat) (g : Gen.ts_vmin.St) (m : CmpSt)
+    (c : Option Nat × Nat × Option Rat) (h : R_ts_vmin g m) :
+    R_ts_vmin (Gen.ts_vmin.step sqrt xs len w mp g c.1 c.2.1 c.2.2).1 (cmpStep leNL .val (C03.get xs) mp m c).1 ∧
+    Agree sqrt (Gen.ts_vmin.step sqrt xs len w mp g c.1 c.2.1 c.2.2).2 (cmpStep leNL .val (C03.get xs) mp m c).2 := by
+  obtain ⟨start, e, v⟩ := c
+  obtain ⟨h0, h1, h2⟩ := h
+  rcases g with ⟨gmin, gidx, gn⟩
+  rcases m with ⟨ext, idx, n⟩
+  simp only at h0 h1 h2
+  subst h0 h1 h2
+  have hn : ∀ n1 : Nat, (if (start.isSome && (C03.get xs (start.getD 0)).isSome) = true then n1 - 1 else n1) =
+      (match start with
+        | some s => if (C03.get xs s).isSome = true then n1 - 1 else n1
+        | none => n1) := by
+    intro n1; cases start <;> simp
+  cases v with
+  | none =>
+    by_cases hlt : Gen.optLt gidx start = true
+    · cases start with
+      | none => cases gidx <;> simp [Gen.optLt] at hlt
+      | some st =>
+        have hlt' : ltON gidx (some st) = true := by rw [← optLt_eq]; exact hlt
+        simp only [Gen.ts_vmin.step, uget_eq, sortCmp_le, upd_fun, cmpStep, extStep, rescan, Option.isSome_none, Option.isSome_some, Option.isNone_none, Option.isNone_some, Option.getD_some, Bool.false_and, Bool.true_and, Bool.and_self, Bool.and_false, Bool.false_eq_true, if_false, if_true, R_ts_vmin, updV, hlt, hlt']
+        exact ⟨⟨trivial, trivial, by first | trivial | exact hn _⟩, agree_mask_val sqrt _ _ _ _⟩
+    · have hlt' : ¬ ltON gidx start = true := by rw [← optLt_eq]; exact hlt
+      simp only [Gen.ts_vmin.step, uget_eq, sortCmp_le, upd_fun, cmpStep, extStep, rescan, Option.isSome_none, Option.isSome_some, Option.isNone_none, Option.isNone_some, Option.getD_some, Bool.false_and, Bool.true_and, Bool.and_self, Bool.and_false, Bool.false_eq_true, if_false, if_true, R_ts_vmin, updV, hlt, hlt']
+      exact ⟨⟨trivial, trivial, by first | trivial | exact hn _⟩, agree_mask_val sqrt _ _ _ _⟩
+  | some v =>
+    cases gidx with
+    | none =>
+      by_cases hlt : Gen.optLt (some e) start = true
+      · cases start with
+        | none => simp [Gen.optLt] at hlt
+        | some st =>
+          have hlt' : ltON (some e) (some st) = true := by rw [← optLt_eq]; exact hlt
+          simp only [Gen.ts_vmin.step, uget_eq, sortCmp_le, upd_fun, cmpStep, extStep, rescan, Option.isSome_none, Option.isSome_some, Option.isNone_none, Option.isNone_some, Option.getD_some, Bool.false_and, Bool.true_and, Bool.and_self, Bool.and_false, Bool.false_eq_true, if_false, if_true, R_ts_vmin, updV, hlt, hlt']
+          exact ⟨⟨trivial, trivial, by first | trivial | exact hn _⟩, agree_mask_val sqrt _ _ _ _⟩
+      · have hlt' : ¬ ltON (some e) start = true := by rw [← optLt_eq]; exact hlt
+        simp only [Gen.ts_vmin.step, uget_eq, sortCmp_le, upd_fun, cmpStep, extStep, rescan, Option.isSome_none, Option.isSome_some, Option.isNone_none, Option.isNone_some, Option.getD_some, Bool.false_and, Bool.true_and, Bool.and_self, Bool.and_false, Bool.false_eq_true, if_false, if_true, R_ts_vmin, updV, hlt, hlt']
+        exact ⟨⟨trivial, trivial, by first | trivial | exact hn _⟩, agree_mask_val sqrt _ _ _ _⟩
+    | some k =>
+      by_cases hlt : Gen.optLt (some k) start = true
+      · cases start with
+        | none => simp [Gen.optLt] at hlt
+        | some st =>
+          have hlt' : ltON (some k) (some st) = true := by rw [← optLt_eq]; exact hlt
+          simp only [Gen.ts_vmin.step, uget_eq, sortCmp_le, upd_fun, cmpStep, extStep, rescan, Option.isSome_none, Option.isSome_some, Option.isNone_none, Option.isNone_some, Option.getD_some, Bool.false_and, Bool.true_and, Bool.and_self, Bool.and_false, Bool.false_eq_true, if_false, if_true, R_ts_vmin, updV, hlt, hlt']
+          exact ⟨⟨trivial, trivial, by first | trivial | exact hn _⟩, agree_mask_val sqrt _ _ _ _⟩
+      · have hlt' : ¬ ltON (some k) start = true := by rw [← optLt_eq]; exact hlt
+        simp only [Gen.ts_vmin.step, uget_eq, sortCmp_le, upd_fun, cmpStep, extStep, rescan, Option.isSome_none, Option.isSome_some, Option.isNone_none, Option.isNone_some, Option.getD_some, Bool.false_and, Bool.true_and, Bool.and_self, Bool.and_false, Bool.false_eq_true, if_false, if_true, R_ts_vmin, updV, hlt, hlt']
+        exact ⟨⟨trivial, trivial, by first | trivial | exact hn _⟩, agree_mask_val sqrt _ _ _ _⟩
+
+theorem ts_vmin_window (len w : Nat) (h : 1 ≤ len) : Gen.ts_vmin.effWindow len w = min len w := by
+  have : ¬ len = 0 := by omega
+  simp [Gen.ts_vmin.effWindow, this]
+theorem ts_vmin_minPeriods (len w : Nat) (mp : Option Nat) (h : 1 ≤ len) :
+    Gen.ts_vmin.minPeriods len w mp = cmpMp mp w len := by
+  have : ¬ len = 0 := by omega
+  simp [Gen.ts_vmin.minPeriods, cmpMp, this]
+
+/-- the closure regenerated from the source of `ts_vmin`, driven over the index callbacks of either
+driver shape with the entry point's own window clamp, yields the from-scratch statistic of the
+window at every position -/
+theorem ts_vmin_exact (sqrt : Rat → Rat) (sh : Shape) (xs : List (Option Rat)) (w : Nat) (mp : Option Nat) (hw : 1 ≤ w) :
+    List.Forall₂ (Agree sqrt)
+      (genRunIdx (Gen.ts_vmin.step sqrt xs xs.length w (Gen.ts_vmin.minPeriods xs.length w mp))
+        (Gen.ts_vmin.init xs.length w) (idxCalls sh xs (Gen.ts_vmin.effWindow xs.length w)))
+      ((List.range xs.length).map fun i => Spec.tsMin (cmpMp mp w xs.length) (window xs i w)) := by
+  rcases Nat.eq_zero_or_pos xs.length with h0 | hpos
+  · have : xs = [] := List.length_eq_zero_iff.mp h0
+    subst this
+    simp [genRunIdx, idxCalls, runSt]
+  · rw [ts_vmin_window _ _ hpos, ts_vmin_minPeriods _ _ _ hpos, ← C03.vmin_exact sh xs w mp hw]
+    exact runSt_sim _ _ R_ts_vmin (Agree sqrt) (fun s t c hr => ts_vmin_step sqrt xs xs.length w _ s t c hr) _ _ _
+      (by simp [R_ts_vmin, Gen.ts_vmin.init])
+
+
+/-! ### `ts_vmax` -/
+def R_ts_vmax (g : Gen.ts_vmax.St) (m : CmpSt) : Prop := g.max = m.ext ∧ g.max_idx = m.idx ∧ g.n = m.n
+
+/-- one call of the regenerated closure simulates one call of the model closure -/
+theorem ts_vmax_step (sqrt : Rat → Rat) (xs : List (Option Rat)) (len w mp : Nat) (g : Gen.ts_vmax.St) (m : CmpSt)
+    (c : Option Nat × Nat × Option Rat) (h : R_ts_vmax g m) :
+    R_ts_vmax (Gen.ts_vmax.step sqrt xs len w mp g c.1 c.2.1 c.2.2).1 (cmpStep geNL .val (C03.get xs) mp m c).1 ∧
+    Agree sqrt (Gen.ts_vmax.step sqrt xs len w mp g c.1 c.2.1 c.2.2).2 (cmpStep geNL .val (C03.get xs) mp m c).2 := by
+  obtain ⟨start, e, v⟩ := c
+  obtain ⟨h0, h1, h2⟩ := h
+  rcases g with ⟨gmin, gidx, gn⟩
+  rcases m with ⟨ext, idx, n⟩
+  simp only at h0 h1 h2
+  subst h0 h1 h2
+  have hn : ∀ n1 : Nat, (if (start.isSome && (C03.get xs (start.getD 0)).isSome) = true then n1 - 1 else n1) =
+      (match start with
+        | some s => if (C03.get xs s).isSome = true then n1 - 1 else n1
+        | none => n1) := by
+    intro n1; cases start <;> simp
+  cases v with
+  | none =>
+    by_cases hlt : Gen.optLt gidx start = true
+    · cases start with
+      | none => cases gidx <;> simp [Gen.optLt] at hlt
+      | some st =>
+        have hlt' : ltON gidx (some st) = true := by rw [← optLt_eq]; exact hlt
+        simp only [Gen.ts_vmax.step, uget_eq, sortCmpRev_ge, upd_fun, cmpStep, extStep, rescan, Option.isSome_none, Option.isSome_some, Option.isNone_none, Option.isNone_some, Option.getD_some, Bool.false_and, Bool.true_and, Bool.and_self, Bool.and_false, Bool.false_eq_true, if_false, if_true, R_ts_vmax, updV, hlt, hlt']
+        exact ⟨⟨trivial, trivial, by first | trivial | exact hn _⟩, agree_mask_val sqrt _ _ _ _⟩
+    · have hlt' : ¬ ltON gidx start = true := by rw [← optLt_eq]; exact hlt
+      simp only [Gen.ts_vmax.step, uget_eq, sortCmpRev_ge, upd_fun, cmpStep, extStep, rescan, Option.isSome_none, Option.isSome_some, Option.isNone_none, Option.isNone_some, Option.getD_some, Bool.false_and, Bool.true_and, Bool.and_self, Bool.and_false, Bool.false_eq_true, if_false, if_true, R_ts_vmax, updV, hlt, hlt']
+      exact ⟨⟨trivial, trivial, by first | trivial | exact hn _⟩, agree_mask_val sqrt _ _ _ _⟩
+  | some v =>
+    cases gidx with
+    | none =>
+      by_cases hlt : Gen.optLt (some e) start = true
+      · cases start with
+        | none => simp [Gen.optLt] at hlt
+        | some st =>
+          have hlt' : ltON (some e) (some st) = true := by rw [← optLt_eq]; exact hlt
+          simp only [Gen.ts_vmax.step, uget_eq, sortCmpRev_ge, upd_fun, cmpStep, extStep, rescan, Option.isSome_none, Option.isSome_some, Option.isNone_none, Option.isNone_some, Option.getD_some, Bool.false_and, Bool.true_and, Bool.and_self, Bool.and_false, Bool.false_eq_true, if_false, if_true, R_ts_vmax, updV, hlt, hlt']
+          exact ⟨⟨trivial, trivial, by first | trivial | exact hn _⟩, agree_mask_val sqrt _ _ _ _⟩
+      · have hlt' : ¬ ltON (some e) start = true := by rw [← optLt_eq]; exact hlt
+        simp only [Gen.ts_vmax.step, uget_eq, sortCmpRev_ge, upd_fun, cmpStep, extStep, rescan, Option.isSome_none, Option.isSome_some, Option.isNone_none, Option.isNone_some, Option.getD_some, Bool.false_and, Bool.true_and, Bool.and_self, Bool.and_false, Bool.false_eq_true, if_false, if_true, R_ts_vmax, updV, hlt, hlt']
+        exact ⟨⟨trivial, trivial, by first | trivial | exact hn _⟩, agree_mask_val sqrt _ _ _ _⟩
+    | some k =>
+      by_cases hlt : Gen.optLt (some k) start = true
+      · cases start with
+        | none => simp [Gen.optLt] at hlt
+        | some st =>
+          have hlt' : ltON (some k) (some st) = true := by rw [← optLt_eq]; exact hlt
+          simp only [Gen.ts_vmax.step, uget_eq, sortCmpRev_ge, upd_fun, cmpStep, extStep, rescan, Option.isSome_none, Option.isSome_some, Option.isNone_none, Option.isNone_some, Option.getD_some, Bool.false_and, Bool.true_and, Bool.and_self, Bool.and_false, Bool.false_eq_true, if_false, if_true, R_ts_vmax, updV, hlt, hlt']
+          exact ⟨⟨trivial, trivial, by first | trivial | exact hn _⟩, agree_mask_val sqrt _ _ _ _⟩
+      · have hlt' : ¬ ltON (some k) start = true := by rw [← optLt_eq]; exact hlt
+        simp only [Gen.ts_vmax.step, uget_eq, sortCmpRev_ge, upd_fun, cmpStep, extStep, rescan, Option.isSome_none, Option.isSome_some, Option.isNone_none, Option.isNone_some, Option.getD_some, Bool.false_and, Bool.true_and, Bool.and_self, Bool.and_false, Bool.false_eq_true, if_false, if_true, R_ts_vmax, updV, hlt, hlt']
+        exact ⟨⟨trivial, trivial, by first | trivial | exact hn _⟩, agree_mask_val sqrt _ _ _ _⟩
+
+theorem ts_vmax_window (len w : Nat) (h : 1 ≤ len) : Gen.ts_vmax.effWindow len w = min len w := by
+  have : ¬ len = 0 := by omega
+  simp [Gen.ts_vmax.effWindow, this]
+theorem ts_vmax_minPeriods (len w : Nat) (mp : Option Nat) (h : 1 ≤ len) :
+    Gen.ts_vmax.minPeriods len w mp = cmpMp mp w len := by
+  have : ¬ len = 0 := by omega
+  simp [Gen.ts_vmax.minPeriods, cmpMp, this]
+
+/-- the closure regenerated from the source of `ts_vmax`, driven over the index callbacks of either
+driver shape with the entry point's own window clamp, yields the from-scratch statistic of the
+window at every position -/
+theorem ts_vmax_exact (sqrt : Rat → Rat) (sh : Shape) (xs : List (Option Rat)) (w : Nat) (mp : Option Nat) (hw : 1 ≤ w) :
+    List.Forall₂ (Agree sqrt)
+      (genRunIdx (Gen.ts_vmax.step sqrt xs xs.length w (Gen.ts_vmax.minPeriods xs.length w mp))
+        (Gen.ts_vmax.init xs.length w) (idxCalls sh xs (Gen.ts_vmax.effWindow xs.length w)))
+      ((List.range xs.length).map fun i => Spec.tsMax (cmpMp mp w xs.length) (window xs i w)) := by
+  rcases Nat.eq_zero_or_pos xs.length with h0 | hpos
+  · have : xs = [] := List.length_eq_zero_iff.mp h0
+    subst this
+    simp [genRunIdx, idxCalls, runSt]
+  · rw [ts_vmax_window _ _ hpos, ts_vmax_minPeriods _ _ _ hpos, ← C03.vmax_exact sh xs w mp hw]
+    exact runSt_sim _ _ R_ts_vmax (Agree sqrt) (fun s t c hr => ts_vmax_step sqrt xs xs.length w _ s t c hr) _ _ _
+      (by simp [R_ts_vmax, Gen.ts_vmax.init])
+
+
+/-! ### `ts_vargmin` -/
+def R_ts_vargmin (g : Gen.ts_vargmin.St) (m : CmpSt) : Prop := g.min = m.ext ∧ g.min_idx = m.idx ∧ g.n = m.n
+
+/-- one call of the regenerated closure simulates one call of the model closure -/
+theorem ts_vargmin_step (sqrt : Rat → Rat) (xs : List (Option Rat)) (len w mp : Nat) (g : Gen.ts_vargmin.St) (m : CmpSt)
+    (c : Option Nat × Nat × Option Rat) (h : R_ts_vargmin g m) :
+    R_ts_vargmin (Gen.ts_vargmin.step sqrt xs len w mp g c.1 c.2.1 c.2.2).1 (cmpStep leNL .arg (C03.get xs) mp m c).1 ∧
+    Agree sqrt (Gen.ts_vargmin.step sqrt xs len w mp g c.1 c.2.1 c.2.2).2 (cmpStep leNL .arg (C03.get xs) mp m c).2 := by
+  obtain ⟨start, e, v⟩ := c
+  obtain ⟨h0, h1, h2⟩ := h
+  rcases g with ⟨gmin, gidx, gn⟩
+  rcases m with ⟨ext, idx, n⟩
+  simp only at h0 h1 h2
+  subst h0 h1 h2
+  have hn : ∀ n1 : Nat, (if (start.isSome && (C03.get xs (start.getD 0)).isSome) = true then n1 - 1 else n1) =
+      (match start with
+        | some s => if (C03.get xs s).isSome = true then n1 - 1 else n1
+        | none => n1) := by
+    intro n1; cases start <;> simp
+  cases v with
+  | none =>
+    by_cases hlt : Gen.optLt gidx start = true
+    · cases start with
+      | none => cases gidx <;> simp [Gen.optLt] at hlt
+      | some st =>
+        have hlt' : ltON gidx (some st) = true := by rw [← optLt_eq]; exact hlt
+        simp only [Gen.ts_vargmin.step, uget_eq, sortCmp_le, upd_fun, cmpStep, extStep, rescan, Option.isSome_none, Option.isSome_some, Option.isNone_none, Option.isNone_some, Option.getD_some, Bool.false_and, Bool.true_and, Bool.and_self, Bool.and_false, Bool.false_eq_true, if_false, if_true, R_ts_vargmin, updV, hlt, hlt']
+        exact ⟨⟨trivial, trivial, by first | trivial | exact hn _⟩, agree_mask_arg sqrt _ _ _ _⟩
+    · have hlt' : ¬ ltON gidx start = true := by rw [← optLt_eq]; exact hlt
+      simp only [Gen.ts_vargmin.step, uget_eq, sortCmp_le, upd_fun, cmpStep, extStep, rescan, Option.isSome_none, Option.isSome_some, Option.isNone_none, Option.isNone_some, Option.getD_some, Bool.false_and, Bool.true_and, Bool.and_self, Bool.and_false, Bool.false_eq_true, if_false, if_true, R_ts_vargmin, updV, hlt, hlt']
+      exact ⟨⟨trivial, trivial, by first | trivial | exact hn _⟩, agree_mask_arg sqrt _ _ _ _⟩
+  | some v =>
+    cases gidx with
+    | none =>
+      by_cases hlt : Gen.optLt (some e) start = true
+      · cases start with
+        | none => simp [Gen.optLt] at hlt
+        | some st =>
+          have hlt' : ltON (some e) (some st) = true := by rw [← optLt_eq]; exact hlt
+          simp only [Gen.ts_vargmin.step, uget_eq, sortCmp_le, upd_fun, cmpStep, extStep, rescan, Option.isSome_none, Option.isSome_some, Option.isNone_none, Option.isNone_some, Option.getD_some, Bool.false_and, Bool.true_and, Bool.and_self, Bool.and_false, Bool.false_eq_true, if_false, if_true, R_ts_vargmin, updV, hlt, hlt']
+          exact ⟨⟨trivial, trivial, by first | trivial | exact hn _⟩, agree_mask_arg sqrt _ _ _ _⟩
+      · have hlt' : ¬ ltON (some e) start = true := by rw [← optLt_eq]; exact hlt
+        simp only [Gen.ts_vargmin.step, uget_eq, sortCmp_le, upd_fun, cmpStep, extStep, rescan, Option.isSome_none, Option.isSome_some, Option.isNone_none, Option.isNone_some, Option.getD_some, Bool.false_and, Bool.true_and, Bool.and_self, Bool.and_false, Bool.false_eq_true, if_false, if_true, R_ts_vargmin, updV, hlt, hlt']
+        exact ⟨⟨trivial, trivial, by first | trivial | exact hn _⟩, agree_mask_arg sqrt _ _ _ _⟩
+    | some k =>
+      by_cases hlt : Gen.optLt (some k) start = true
+      · cases start with
+        | none => simp [Gen.optLt] at hlt
+        | some st =>
+          have hlt' : ltON (some k) (some st) = true := by rw [← optLt_eq]; exact hlt
+          simp only [Gen.ts_vargmin.step, uget_eq, sortCmp_le, upd_fun, cmpStep, extStep, rescan, Option.isSome_none, Option.isSome_some, Option.isNone_none, Option.isNone_some, Option.getD_some, Bool.false_and, Bool.true_and, Bool.and_self, Bool.and_false, Bool.false_eq_true, if_false, if_true, R_ts_vargmin, updV, hlt, hlt']
+          exact ⟨⟨trivial, trivial, by first | trivial | exact hn _⟩, agree_mask_arg sqrt _ _ _ _⟩
+      · have hlt' : ¬ ltON (some k) start = true := by rw [← optLt_eq]; exact hlt
+        simp only [Gen.ts_vargmin.step, uget_eq, sortCmp_le, upd_fun, cmpStep, extStep, rescan, Option.isSome_none, Option.isSome_some, Option.isNone_none, Option.isNone_some, Option.getD_some, Bool.false_and, Bool.true_and, Bool.and_self, Bool.and_false, Bool.false_eq_true, if_false, if_true, R_ts_vargmin, updV, hlt, hlt']
+        exact ⟨⟨trivial, trivial, by first | trivial | exact hn _⟩, agree_mask_arg sqrt _ _ _ _⟩
+
+theorem ts_vargmin_window (len w : Nat) (h : 1 ≤ len) : Gen.ts_vargmin.effWindow len w = min len w := by
+  have : ¬ len = 0 := by omega
+  simp [Gen.ts_vargmin.effWindow, this]
+theorem ts_vargmin_minPeriods (len w : Nat) (mp : Option Nat) (h : 1 ≤ len) :
+    Gen.ts_vargmin.minPeriods len w mp = cmpMp mp w len := by
+  have : ¬ len = 0 := by omega
+  simp [Gen.ts_vargmin.minPeriods, cmpMp, this]
+
+/-- the closure regenerated from the source of `ts_vargmin`, driven over the index callbacks of either
+driver shape with the entry point's own window clamp, yields the from-scratch statistic of the
+window at every position -/
+theorem ts_vargmin_exact (sqrt : Rat → Rat) (sh : Shape) (xs : List (Option Rat)) (w : Nat) (mp : Option Nat) (hw : 1 ≤ w) :
+    List.Forall₂ (Agree sqrt)
+      (genRunIdx (Gen.ts_vargmin.step sqrt xs xs.length w (Gen.ts_vargmin.minPeriods xs.length w mp))
+        (Gen.ts_vargmin.init xs.length w) (idxCalls sh xs (Gen.ts_vargmin.effWindow xs.length w)))
+      ((List.range xs.length).map fun i => Spec.tsArgmin (cmpMp mp w xs.length) (window xs i w)) := by
+  rcases Nat.eq_zero_or_pos xs.length with h0 | hpos
+  · have : xs = [] := List.length_eq_zero_iff.mp h0
+    subst this
+    simp [genRunIdx, idxCalls, runSt]
+  · rw [ts_vargmin_window _ _ hpos, ts_vargmin_minPeriods _ _ _ hpos, ← C03.vargmin_exact sh xs w mp hw]
+    exact runSt_sim _ _ R_ts_vargmin (Agree sqrt) (fun s t c hr => ts_vargmin_step sqrt xs xs.length w _ s t c hr) _ _ _
+      (by simp [R_ts_vargmin, Gen.ts_vargmin.init])
+
+
+/-! ### `ts_vargmax` -/
+def R_ts_vargmax (g : Gen.ts_vargmax.St) (m : CmpSt) : Prop := g.max = m.ext ∧ g.max_idx = m.idx ∧ g.n = m.n
+
+/-- one call of the regenerated closure simulates one call of the model closure -/
+theorem ts_vargmax_step (sqrt : Rat → Rat) (xs : List (Option Rat)) (len w mp : Nat) (g : Gen.ts_vargmax.St) (m : CmpSt)
+    (c : Option Nat × Nat × Option Rat) (h : R_ts_vargmax g m) :
+    R_ts_vargmax (Gen.ts_vargmax.step sqrt xs len w mp g c.1 c.2.1 c.2.2).1 (cmpStep geNL .arg (C03.get xs) mp m c).1 ∧
+    Agree sqrt (Gen.ts_vargmax.step sqrt xs len w mp g c.1 c.2.1 c.2.2).2 (cmpStep geNL .arg (C03.get xs) mp m c).2 := by
+  obtain ⟨start, e, v⟩ := c
+  obtain ⟨h0, h1, h2⟩ := h
+  rcases g with ⟨gmin, gidx, gn⟩
+  rcases m with ⟨ext, idx, n⟩
+  simp only at h0 h1 h2
+  subst h0 h1 h2
+  have hn : ∀ n1 : Nat, (if (start.isSome && (C03.get xs (start.getD 0)).isSome) = true then n1 - 1 else n1) =
+      (match start with
+        | some s => if (C03.get xs s).isSome = true then n1 - 1 else n1
+        | none => n1) := by
+    intro n1; cases start <;> simp
+  cases v with
+  | none =>
+    by_cases hlt : Gen.optLt gidx start = true
+    · cases start with
+      | none => cases gidx <;> simp [Gen.optLt] at hlt
+      | some st =>
+        have hlt' : ltON gidx (some st) = true := by rw [← optLt_eq]; exact hlt
+        simp only [Gen.ts_vargmax.step, uget_eq, sortCmpRev_ge, upd_fun, cmpStep, extStep, rescan, Option.isSome_none, Option.isSome_some, Option.isNone_none, Option.isNone_some, Option.getD_some, Bool.false_and, Bool.true_and, Bool.and_self, Bool.and_false, Bool.false_eq_true, if_false, if_true, R_ts_vargmax, updV, hlt, hlt']
+        exact ⟨⟨trivial, trivial, by first | trivial | exact hn _⟩, agree_mask_arg sqrt _ _ _ _⟩
+    · have hlt' : ¬ ltON gidx start = true := by rw [← optLt_eq]; exact hlt
+      simp only [Gen.ts_vargmax.step, uget_eq, sortCmpRev_ge, upd_fun, cmpStep, extStep, rescan, Option.isSome_none, Option.isSome_some, Option.isNone_none, Option.isNone_some, Option.getD_some, Bool.false_and, Bool.true_and, Bool.and_self, Bool.and_false, Bool.false_eq_true, if_false, if_true, R_ts_vargmax, updV, hlt, hlt']
+      exact ⟨⟨trivial, trivial, by first | trivial | exact hn _⟩, agree_mask_arg sqrt _ _ _ _⟩
+  | some v =>
+    cases gidx with
+    | none =>
+      by_cases hlt : Gen.optLt (some e) start = true
+      · cases start with
+        | none => simp [Gen.optLt] at hlt
+        | some st =>
+          have hlt' : ltON (some e) (some st) = true := by rw [← optLt_eq]; exact hlt
+          simp only [Gen.ts_vargmax.step, uget_eq, sortCmpRev_ge, upd_fun, cmpStep, extStep, rescan, Option.isSome_none, Option.isSome_some, Option.isNone_none, Option.isNone_some, Option.getD_some, Bool.false_and, Bool.true_and, Bool.and_self, Bool.and_false, Bool.false_eq_true, if_false, if_true, R_ts_vargmax, updV, hlt, hlt']
+          exact ⟨⟨trivial, trivial, by first | trivial | exact hn _⟩, agree_mask_arg sqrt _ _ _ _⟩
+      · have hlt' : ¬ ltON (some e) start = true := by rw [← optLt_eq]; exact hlt
+        simp only [Gen.ts_vargmax.step, uget_eq, sortCmpRev_ge, upd_fun, cmpStep, extStep, rescan, Option.isSome_none, Option.isSome_some, Option.isNone_none, Option.isNone_some, Option.getD_some, Bool.false_and, Bool.true_and, Bool.and_self, Bool.and_false, Bool.false_eq_true, if_false, if_true, R_ts_vargmax, updV, hlt, hlt']
+        exact ⟨⟨trivial, trivial, by first | trivial | exact hn _⟩, agree_mask_arg sqrt _ _ _ _⟩
+    | some k =>
+      by_cases hlt : Gen.optLt (some k) start = true
+      · cases start with
+        | none => simp [Gen.optLt] at hlt
+        | some st =>
+          have hlt' : ltON (some k) (some st) = true := by rw [← optLt_eq]; exact hlt
+          simp only [Gen.ts_vargmax.step, uget_eq, sortCmpRev_ge, upd_fun, cmpStep, extStep, rescan, Option.isSome_none, Option.isSome_some, Option.isNone_none, Option.isNone_some, Option.getD_some, Bool.false_and, Bool.true_and, Bool.and_self, Bool.and_false, Bool.false_eq_true, if_false, if_true, R_ts_vargmax, updV, hlt, hlt']
+          exact ⟨⟨trivial, trivial, by first | trivial | exact hn _⟩, agree_mask_arg sqrt _ _ _ _⟩
+      · have hlt' : ¬ ltON (some k) start = true := by rw [← optLt_eq]; exact hlt
+        simp only [Gen.ts_vargmax.step, uget_eq, sortCmpRev_ge, upd_fun, cmpStep, extStep, rescan, Option.isSome_none, Option.isSome_some, Option.isNone_none, Option.isNone_some, Option.getD_some, Bool.false_and, Bool.true_and, Bool.and_self, Bool.and_false, Bool.false_eq_true, if_false, if_true, R_ts_vargmax, updV, hlt, hlt']
+        exact ⟨⟨trivial, trivial, by first | trivial | exact hn _⟩, agree_mask_arg sqrt _ _ _ _⟩
+
+theorem ts_vargmax_window (len w : Nat) (h : 1 ≤ len) : Gen.ts_vargmax.effWindow len w = min len w := by
+  have : ¬ len = 0 := by omega
+  simp [Gen.ts_vargmax.effWindow, this]
+theorem ts_vargmax_minPeriods (len w : Nat) (mp : Option Nat) (h : 1 ≤ len) :
+    Gen.ts_vargmax.minPeriods len w mp = cmpMp mp w len := by
+  have : ¬ len = 0 := by omega
+  simp [Gen.ts_vargmax.minPeriods, cmpMp, this]
+
+/-- the closure regenerated from the source of `ts_vargmax`, driven over the index callbacks of either
+driver shape with the entry point's own window clamp, yields the from-scratch statistic of the
+window at every position -/
+theorem ts_vargmax_exact (sqrt : Rat → Rat) (sh : Shape) (xs : List (Option Rat)) (w : Nat) (mp : Option Nat) (hw : 1 ≤ w) :
+    List.Forall₂ (Agree sqrt)
+      (genRunIdx (Gen.ts_vargmax.step sqrt xs xs.length w (Gen.ts_vargmax.minPeriods xs.length w mp))
+        (Gen.ts_vargmax.init xs.length w) (idxCalls sh xs (Gen.ts_vargmax.effWindow xs.length w)))
+      ((List.range xs.length).map fun i => Spec.tsArgmax (cmpMp mp w xs.length) (window xs i w)) := by
+  rcases Nat.eq_zero_or_pos xs.length with h0 | hpos
+  · have : xs = [] := List.length_eq_zero_iff.mp h0
+    subst this
+    simp [genRunIdx, idxCalls, runSt]
+  · rw [ts_vargmax_window _ _ hpos, ts_vargmax_minPeriods _ _ _ hpos, ← C03.vargmax_exact sh xs w mp hw]
+    exact runSt_sim _ _ R_ts_vargmax (Agree sqrt) (fun s t c hr => ts_vargmax_step sqrt xs xs.length w _ s t c hr) _ _ _
+      (by simp [R_ts_vargmax, Gen.ts_vargmax.init])
+
+
+theorem cmp_closures_present :
+    ∀ n ∈ ["ts_vmin", "ts_vmax", "ts_vargmin", "ts_vargmax"], n ∈ Gen.closures := by
+  simp [Gen.closures]
+
 end Tv.C03Gen
